@@ -9,7 +9,7 @@ CONSTANTS Ns, Bs
 
 VARIABLE z
 Init == z = [k |-> "start"]
-Next == z.k = "start" /\ \E n \in Ns, b \in Bs, all \in BOOLEAN, aa \in BOOLEAN : b <= n /\ z' = [k |-> "case", n |-> n, b |-> b, all |-> all, aa |-> aa]
+Next == z.k = "start" /\ \E n \in Ns, b \in Bs, all \in BOOLEAN, aa \in BOOLEAN, pre \in BOOLEAN : b <= n /\ (pre => aa) /\ z' = [k |-> "case", n |-> n, b |-> b, all |-> all, aa |-> aa, pre |-> pre]
 Spec == Init /\ [][Next]_z
 
 Prefix(n, aa) == <<
@@ -19,7 +19,7 @@ Prefix(n, aa) == <<
   [e |-> "PFrame", perf |-> "begin", ch |-> 3, f |-> [rch |-> [ref |-> "s1"], noi |-> 0, iw |-> 100, ow |-> 100]],
   [e |-> "AAttachR", l |-> "L2", s |-> "s1", cfg |-> [snd |-> 2, rcv |-> 0, credit |-> n, auto_accept |-> aa]],
   [e |-> "PFrame", perf |-> "attach", ch |-> 3, f |-> [name |-> "L2", h |-> 6, role |-> "s", snd |-> 2, rcv |-> 0, idc |-> 0]] >>
-T(k) == [e |-> "PFrame", perf |-> "transfer", ch |-> 3, f |-> [h |-> 6, did |-> k, tagn |-> 1, tag |-> <<k % 250>>, fmt |-> 0, settled |-> "f", more |-> FALSE, aborted |-> FALSE],
+T(k) == [e |-> "PFrame", perf |-> "transfer", ch |-> 3, f |-> [h |-> 6, did |-> k, tagn |-> 1, tag |-> <<k % 250>>, fmt |-> 0, settled |-> IF z.pre THEN "t" ELSE "f", more |-> FALSE, aborted |-> FALSE],
          msg |-> [m |-> 400 + k, len |-> 10, shape |-> "data"]]
 RECURSIVE Burst(_, _), Recvs(_), Rounds(_, _, _, _)
 Burst(k, n) == IF k >= n THEN <<>> ELSE <<T(k)>> \o Burst(k + 1, n)
